@@ -212,3 +212,7 @@ def extra_coverage(stats) -> dict:
     return {"serializer_models": "separator framers (line, json lines, base64, AutoSeparated subclass) and fixed-size "
             "framers (struct, named-tuple struct, FixedSize subclass) are compared with the Lean model; raw JSON, "
             "file-based, zlib/bz2 wrappers are run against the oracle only in this check"}
+
+
+def after_batch() -> None:
+    _aux.clear()
